@@ -4,7 +4,8 @@
   mpn_rootrem_basecase).  The models (Mpir/Model/Rootrem.lean) mirror the C at value + limb-count level and
   answer the op `mpn_rootrem_basecase` of the differential run.
 -/
-import MpirProofs.Lemmas.RootremInt
+import MpirProofs.Lemmas.RootremTop
+import MpirProofs.Lemmas.SqrtremLimb
 namespace Mpir.Rootrem
 open Mpir Mpir.Root Mpir.Gen.SqrtTabs
 
@@ -45,7 +46,9 @@ example : limbLen (B ^ 5 - 1) < rootremThreshold ∧
 
 /-! ## mpn_rootrem_internal (rootrem.c:135-423) -/
 
-/-- PARTIAL (`mpn_rootrem_spec`).  Full statement:
+/-- The Newton round in isolation (kept under its old name; the full statement it was a part of is now proved:
+    `mpn_rootrem_internal_spec`, `mpn_rootrem_internal_approx_spec`, `mpn_rootrem_spec` below).  Old note:
+    PARTIAL (`mpn_rootrem_spec`).  Full statement:
       `∀ U k, 0 < U → 2 ≤ k → rootremInternal U k false = some (iroot k U, U − (iroot k U)^k, false)`, the variant
       with `approx = 1` (`root ≤ S ≤ root + 1`, low limb > 1, or the exact result), and for the dispatcher
       `rootrem U k w = some (iroot k U, r)` with `r = U − root^k` (`w = true`) resp. `r = 0 ↔ root^k = U`.
@@ -54,9 +57,8 @@ example : limbLen (B ^ 5 - 1) < rootremThreshold ∧
     bit at a time, `β = 2`, :229-230), then with `Q = min (β − 1, ⌊(⌊U'/β^(k−1)⌋ − S^k·β) / (k·S^(k−1))⌋)` (the clamp of
     :331-339) the candidate `S·β + Q` is never below the floor root `s'` of `U'` and at most one above it
     (`ASSERT_ALWAYS (c <= 1)`, :407), and `Q < β`, `S·β ≤ s' < (S+1)·β` (the candidate keeps its bit count).
-    Missing: the induction over the schedule list (`rrSizes`: consecutive sizes satisfy `2·sizes[i] ≥ sizes[i-1] + logk` or
-    differ by 1; at most 65 entries — `ASSERT_ALWAYS (ni < GMP_NUMB_BITS + 1)`), the `approx` exit, the padded call of
-    the dispatcher; these stay differential (ops mpn_rootrem_i / mpn_rootrem_i_norem). -/
+    (The induction over the schedule list, the `approx` exit and the padded call are `mpn_rootrem_schedule_ok`,
+    `mpn_rootrem_internal_spec`, `mpn_rootrem_internal_approx_spec`, `mpn_rootrem_spec`.) -/
 theorem mpn_rootrem_newton_round_partial (k S β U' : Nat) (hk : 2 ≤ k) (hS : 0 < S) (hβ : 1 ≤ β)
     (h1 : S ^ k * β ^ k ≤ U') (h2 : U' < (S + 1) ^ k * β ^ k) (hc : k * β ≤ S ∨ β = 2) :
     let Q0 := (U' / β ^ (k - 1) - S ^ k * β) / (k * S ^ (k - 1))
@@ -90,5 +92,139 @@ example : rrStep (127999 * 2 ^ 9) 3 2 false false (12, 127999 * 2 ^ 9 / 2 ^ 15 -
 example : rootrem (B ^ 6 - 1) 3 true = some (B ^ 2 - 1, B ^ 6 - 1 - (B ^ 2 - 1) ^ 3) ∧
     rootrem ((B ^ 3 - 5) ^ 2) 2 false = some (B ^ 3 - 5, 0) ∧
     rootremInternal (7 ^ 150) 5 false = some (7 ^ 30, 0, false) := by decide +kernel
+
+
+/-! ## the schedule, the whole of mpn_rootrem_internal, the dispatcher -/
+
+/-- The bit-size schedule `sizes[]` of mpn_rootrem_internal (rootrem.c:211-238) for every index `k ≥ 2` and every
+    root bit count `xnb = T + 1 ≥ 2` with `T·k < 2^62` (operands of at most 2^62 bits):
+    * it ends in 0 and has at most 65 entries — `ASSERT_ALWAYS (ni < GMP_NUMB_BITS + 1)` (:234) does not fire;
+    * consecutive entries `a = sizes[i-1] > c = sizes[i]` satisfy `a + logk ≤ 2c` or `a = c + 1` (`SchedOK`), which is
+      what the round needs: `k·2^(a−c) ≤ 2^c ≤ S` (Brent–Zimmermann "at most one correction") or one bit at a time;
+    * every entry is at most `T = sizes[0]`.
+    (For `k = 2` and `T = 2^63 − 1` the list has 66 entries: the assertion would fire on an operand of 2^64 − 2 bits,
+    which no address space holds.) -/
+theorem mpn_rootrem_schedule_ok (k T : Nat) (hk : 2 ≤ k) (hT : 1 ≤ T) (hsz : T * k < 2 ^ 62) :
+    let logk := if bitLen (k - 1) = 0 then 1 else bitLen (k - 1)
+    (rrSizes logk 66 T).length ≤ 65 ∧ (rrSizes logk 66 T).getLast? = some 0 ∧ (rrSizes logk 66 T).head? = some T ∧
+    List.IsChain (SchedOK logk) (rrSizes logk 66 T) ∧ (∀ x ∈ rrSizes logk 66 T, x ≤ T) ∧ k ≤ 2 ^ logk := by
+  intro logk
+  have hl : logk = bitLen (k - 1) := (logk_spec k hk).1
+  rw [hl]
+  obtain ⟨f1, f2⟩ := rrSizes_fits k T hk hT hsz
+  exact ⟨f1, f2, rrSizes_head_eq _ 65 T, rrSizes_chain _ 66 T, rrSizes_le _ 66 T, (logk_spec k hk).2.2.1⟩
+
+-- non-vacuity: k = 3 (logk = 2), a 101-bit root: halving phase 100 → 6, then single bits; k = 2 at the size bound
+example : rrSizes 2 66 100 = [100, 51, 27, 15, 9, 6, 4, 3, 2, 1, 0] ∧ (rrSizes 1 66 (2 ^ 61 - 1)).length = 64 ∧
+    (rrSizes 1 66 (2 ^ 63 - 1)).length = 66 := by decide +kernel
+
+/-- mpn_rootrem_internal (rootrem.c:135-423) with `approx = 0`, for EVERY normalised operand `U ≥ 1` of at most 2^62
+    bits and every index `k ≥ 2`: the model never reaches `none` (no `ASSERT_ALWAYS` fires: `ni < 65`, `c <= 1`,
+    `bn >= qn`, `rn >= qn`; mpn_pow_1 always sees a normalised base) and returns `(⌊U^(1/k)⌋, U − ⌊U^(1/k)⌋^k)`.
+    Proof: the one-bit initial approximation satisfies the loop invariant of :244-250 at `sizes[ni] = 0`
+    (`iroot_trunc_bits`), every round re-establishes it (`mpn_rootrem_internal_round`, its side condition supplied by
+    `mpn_rootrem_schedule_ok`), induction over the reversed schedule (`rrLoop_spec`). -/
+theorem mpn_rootrem_internal_spec (U k : Nat) (hU : 0 < U) (hk : 2 ≤ k) (hsz : bitLen U ≤ 2 ^ 62) :
+    rootremInternal U k false = some (iroot k U, U - iroot k U ^ k, false) ∧
+    iroot k U ^ k ≤ U ∧ U < (iroot k U + 1) ^ k := by
+  refine ⟨?_, iroot_spec k U (by omega)⟩
+  obtain ⟨S, R, ap, e, p1, p2⟩ := rootremInternal_ok U k false hU hk hsz
+  cases ap with
+  | true => exact absurd (p2 rfl).1 (by simp)
+  | false => obtain ⟨pS, pR⟩ := p1 rfl; rw [e, pS, pR]
+
+example : rootremInternal (7 ^ 150 + 1) 5 false = some (7 ^ 30, 1, false) ∧
+    rootremInternal (B ^ 8 - 1) 2 false = some (B ^ 4 - 1, 2 * (B ^ 4 - 1), false) := by decide +kernel
+
+/-- mpn_rootrem_internal with `approx = 1` (the call of the `remp == NULL` path): either the flag comes back off and
+    the result is exact as above, or it stays on and then the returned `S` is the floor root or ONE ABOVE it, its least
+    significant limb is at least 2, and the returned "remainder" is the operand itself (non-zero; no power was
+    computed in the last round, rootrem.c:385-386, :411).  This is exactly what the caller relies on: a candidate whose
+    low limb is ≥ 2 determines `S / B` and excludes a perfect power of the unpadded operand. -/
+theorem mpn_rootrem_internal_approx_spec (U k : Nat) (hU : 0 < U) (hk : 2 ≤ k) (hsz : bitLen U ≤ 2 ^ 62) :
+    ∃ S R ap, rootremInternal U k true = some (S, R, ap) ∧
+      (ap = false → S = iroot k U ∧ R = U - iroot k U ^ k) ∧
+      (ap = true → iroot k U ≤ S ∧ S ≤ iroot k U + 1 ∧ 1 < S % B ∧ R = U) := by
+  obtain ⟨S, R, ap, e, p1, p2⟩ := rootremInternal_ok U k true hU hk hsz
+  exact ⟨S, R, ap, e, p1, fun h => (p2 h).2⟩
+
+-- non-vacuity: the flag stays on with a candidate ONE ABOVE the root (low limb 2^63); it goes off on a low limb 0
+example : rootremInternal (((2 ^ 200 + 12345) ^ 2 + 2 ^ 200) * B ^ 2) 2 true =
+      some (Nat.sqrt (((2 ^ 200 + 12345) ^ 2 + 2 ^ 200) * B ^ 2) + 1, ((2 ^ 200 + 12345) ^ 2 + 2 ^ 200) * B ^ 2, true) ∧
+    (Nat.sqrt (((2 ^ 200 + 12345) ^ 2 + 2 ^ 200) * B ^ 2) + 1) % B = 2 ^ 63 ∧
+    rootremInternal ((2 ^ 200 + 12345) ^ 2 * B ^ 2) 2 true = some ((2 ^ 200 + 12345) * B, 0, false) := by decide +kernel
+
+/-- mpn_rootrem (rootrem.c:78-132), UNCONDITIONAL on the model: for every normalised operand `U ≥ 1` (at most 2^61
+    bits) and every index `2 ≤ k < 2^64`, on each of the three paths — mpn_rootrem_basecase below ROOTREM_THRESHOLD
+    limbs, the call padded with `k` zero limbs when `remp == NULL` and `un / k > 2` (root truncated by one limb,
+    :124), mpn_rootrem_internal otherwise — the root written is `r = ⌊U^(1/k)⌋` (`r^k ≤ U < (r+1)^k`); with a
+    remainder pointer (`w = true`) the remainder is `U − r^k`; in every case the value the return code is derived from
+    is zero exactly when `r^k = U` (with `remp == NULL`: "non-zero iff the remainder is non-zero"). -/
+theorem mpn_rootrem_spec (U k : Nat) (w : Bool) (hU : 0 < U) (hk : 2 ≤ k) (hkB : k < B) (hsz : bitLen U ≤ 2 ^ 61) :
+    ∃ R, rootrem U k w = some (iroot k U, R) ∧ (w = true → R = U - iroot k U ^ k) ∧ (R = 0 ↔ iroot k U ^ k = U) ∧
+      iroot k U ^ k ≤ U ∧ U < (iroot k U + 1) ^ k := by
+  obtain ⟨R, e, p1, p2⟩ := rootrem_ok U k w hU hk hkB hsz
+  exact ⟨R, e, p1, p2, iroot_spec k U (by omega)⟩
+
+-- non-vacuity: the padded path with the flag still on (7 limbs, k = 2: non-zero "remainder"), an exact square on it
+example : rootrem ((2 ^ 200 + 12345) ^ 2 + 2 ^ 200) 2 false =
+      some (2 ^ 200 + 12345, ((2 ^ 200 + 12345) ^ 2 + 2 ^ 200) * B ^ 2) ∧
+    rootrem ((2 ^ 200 + 12345) ^ 2 + 2 ^ 200) 2 true = some (2 ^ 200 + 12345, 2 ^ 200) ∧
+    rootrem ((2 ^ 200 + 12345) ^ 2) 2 false = some (2 ^ 200 + 12345, 0) := by decide +kernel
+
+/-! ## mpn_dc_sqrtrem at limb level (sqrtrem.c:245-293) -/
+
+/-- mpn_dc_sqrtrem (sp, np, n) ON LIMB BUFFERS (`Model/SqrtremLimb.lean`: every buffer reduced modulo `B^(its size)`, every
+    mpn call returning its borrow / carry / top quotient limb, the C's `int c, b` and `mp_limb_t q`) for every `n ≥ 1` and
+    every normalised operand `B^(2n)/4 ≤ N < B^(2n)`:  `{sp, n} = ⌊√N⌋`, `{np, n}` = the low `n` limbs of the remainder
+    `N − ⌊√N⌋²` and the returned `c` its carry limb (0 or 1).  Inside (Lemmas/SqrtremLimb.lean, one lemma per statement
+    group): the pre-subtraction `if (q != 0) mpn_sub_n` never wraps (`divStep_spec`); the quotient of mpn_intdivrem is
+    `q·B^l + {sp, l}` with `q ≤ 2`; halving moves bit 0 of `q` into bit 63 of `sp[l-1]` where the OR is an addition
+    (`halfStep_spec`), and afterwards `q = 1` forces `{sp, l} = 0`, so subtracting only `{sp, l}²` and `q` at `B^(2l)` is the
+    full square (`subSquare_core`); the borrow `b ∈ {0, 1, 2}` reaches `c` directly (`l = h`) or through the single limb
+    `np[2l]` (`h = l + 1`); `c < 0` iff the true remainder is negative, and the correction `+ 2·S − 1` / `S − 1` with its
+    carries `mpn_addmul_1 + 2q`, `mpn_sub_1` restores `c·B^n + {np, n} = N − S²` with `S = ⌊√N⌋ < B^n` even when
+    `mpn_add_1` had carried out of `{sp + l, h}` (`fixup_spec`).  Base case: the word-level mpn_sqrtrem2 theorem, whose
+    returned `cc` is now proved non-negative (`sqrtrem2_exI`). -/
+theorem mpn_dc_sqrtrem_limb_spec (n N : Nat) (hn : 0 < n) (h1 : B ^ (2 * n) ≤ 4 * N) (h2 : N < B ^ (2 * n)) :
+    SqrtL.dcL n n N = (Nat.sqrt N, (N - Nat.sqrt N * Nat.sqrt N) % B ^ n,
+      (((N - Nat.sqrt N * Nat.sqrt N) / B ^ n : Nat) : Int)) ∧
+    (N - Nat.sqrt N * Nat.sqrt N) / B ^ n ≤ 1 ∧ Nat.sqrt N < B ^ n := by
+  have e := SqrtL.dcL_eq n n N hn (Nat.le_refl _) h1 h2
+  have hv : dcSqrtremF n n N = (Nat.sqrt N, N - Nat.sqrt N * Nat.sqrt N) := by
+    obtain ⟨e1, r1⟩ := dcSpec n N hn h1 h2
+    obtain ⟨d1, d2⟩ := sqrt_of_rem e1 r1
+    exact Prod.ext d1 d2
+  rw [hv] at e
+  have hs : Nat.sqrt N < B ^ n := by
+    rw [Nat.sqrt_lt, ← pow_two, ← pow_mul, Nat.mul_comm]; exact h2
+  refine ⟨e, ?_, hs⟩
+  have hr : N - Nat.sqrt N * Nat.sqrt N ≤ 2 * Nat.sqrt N := by
+    have := Nat.sqrt_le_add N; omega
+  have hlt : (N - Nat.sqrt N * Nat.sqrt N) / B ^ n < 2 :=
+    (Nat.div_lt_iff_lt_mul (pow_pos B_pos _)).mpr (by omega)
+  omega
+
+-- non-vacuity: n = 3 (l = 1, h = 2: the borrow through np[2l]) with the carry limb set; n = 2 on B^4 − 1
+example : SqrtL.dcL 3 3 (B ^ 6 - 1) = (B ^ 3 - 1, (2 * (B ^ 3 - 1)) % B ^ 3, 1) ∧
+    SqrtL.dcL 2 2 (B ^ 4 - 1) = (B ^ 2 - 1, B ^ 2 - 2, 1) ∧ SqrtL.dcL 2 2 (B ^ 4 / 4) = (B ^ 2 / 2, 0, 0) := by
+  decide +kernel
+
+/-- mpn_sqrtrem on an operand with an even number `2·tn` of limbs and a normalised top limb — the branch that passes the
+    operand unshifted to mpn_dc_sqrtrem and stores its return value as `rp[tn]` (sqrtrem.c:362-368), limb level:
+    root `⌊√N⌋` in `tn` limbs, `{rp, tn + 1} = N − ⌊√N⌋²`. -/
+theorem mpn_sqrtrem_even_limb_spec (tn N : Nat) (hn : 0 < tn) (h1 : B ^ (2 * tn) ≤ 4 * N) (h2 : N < B ^ (2 * tn)) :
+    SqrtL.sqrtremEvenL tn N = (Nat.sqrt N, ((N - Nat.sqrt N * Nat.sqrt N : Nat) : Int)) := by
+  obtain ⟨e, -, -⟩ := mpn_dc_sqrtrem_limb_spec tn N hn h1 h2
+  unfold SqrtL.sqrtremEvenL
+  rw [e]
+  dsimp only
+  congr 1
+  have := Nat.div_add_mod (N - Nat.sqrt N * Nat.sqrt N) (B ^ tn)
+  rw [← Int.natCast_mul, ← Int.natCast_add]
+  congr 1
+  rw [Nat.mul_comm]; exact this
+
+example : SqrtL.sqrtremEvenL 2 (B ^ 4 - 1) = (B ^ 2 - 1, ((2 * (B ^ 2 - 1) : Nat) : Int)) := by decide +kernel
 
 end Mpir.Rootrem
